@@ -354,9 +354,7 @@ def worker(payload):
                 if ik[0] == "other" and ok[0] == "bind" and spec == ["nomethod"]:
                     ik = ["nomethod"]  # CPython's own binding TypeError from the selected arity: no body ran
                 if ik != spec:
-                    if a["keylen"] == 0:
-                        known(o2, "D9:zero-arguments-bypass-resolution", wit)
-                    elif a.get("truncated"):
+                    if a.get("truncated"):
                         known(o2, "D8b:keyword-given-positional-beyond-an-omitted-one", wit)
                     elif not a["cc"]:
                         known(o2, "D1:levels-of-unrelated-types", wit)
@@ -422,9 +420,8 @@ def worker(payload):
                                             for x, y in zip(pd, pe)))
                         rd = [sc["defs"][t] for t in regs]
                         app = {i for i in app if not any(e["id"] != i and maybe_same(fw.defs_by_id[i], e) for e in rd)}
-                        # keep to definitions of the plain shape (exactly these positionals, all required); the
-                        # zero-argument slot of the table holds one method only
-                        app = {i for i in app if npos_call >= 1 and len(fw.defs_by_id[i]["params"]) == npos_call
+                        # keep to definitions of the plain shape (exactly these positionals, all required)
+                        app = {i for i in app if len(fw.defs_by_id[i]["params"]) == npos_call
                                and all(p["kind"] != "ko" and p["req"] for p in fw.defs_by_id[i]["params"])}
                         if len({sc["defs"][t]["id"] for t in regs}) == len(regs) and app - set(ent):
                             law = "a call_next chain fell off its end without visiting every applicable method"
@@ -461,9 +458,7 @@ def worker(payload):
                 if acc:
                     o3["n"] += 1
                     o3["nontrivial"] += 1
-                    if not op[1] and not op[2]:
-                        known(o3, "D9:zero-arguments-bypass-resolution", wit)
-                    elif a.get("truncated"):
+                    if a.get("truncated"):
                         known(o3, "D8b:keyword-given-positional-beyond-an-omitted-one", wit)
                     else:
                         o3["viol"].append({"law": "a call shape accepted by an applicable method was rejected", "accepting": [x["id"] for x in acc], **wit})
@@ -488,9 +483,7 @@ def worker(payload):
             v = {"law": "a method that cannot take the call changes its outcome", "with_all": ot(r_all), "applicable_only": ot(r_rel), **wit6}
             agree = "error" not in ma and "error" not in mb and norm6(ma["ops"][-1]) == norm6(r_all) and norm6(mb["ops"][-1]) == norm6(r_rel)
             info = ma["ops"][-1] if "error" not in ma else {}
-            if agree and info.get("keylen") == 0:
-                key = "D9:zero-arguments-bypass-resolution"
-            elif agree and info.get("truncated"):
+            if agree and info.get("truncated"):
                 key = "D8b:keyword-given-positional-beyond-an-omitted-one"
             elif agree and info.get("cc") is False:
                 key = "D1:levels-of-unrelated-types"
